@@ -47,4 +47,8 @@ theorem elsewhere_nothing_waits_under_a_mutex (n : String) (p : Prog) (hm : (n, 
       exact absurd (List.mem_singleton.mp hmem) hn
   exact nothing_waits_under_a_mutex p hs ha o t h
 
+/-- no function literal started with `go` inside a loop refers to the loop's own variables (the module says go 1.13: one
+    variable for all the rounds — the seeded change C06n dispatched `msg` that way) -/
+theorem no_goroutine_shares_a_loop_variable : Gen.Locks.capturedLoopVars = [] := by decide
+
 end QiVerif.Tie.Locks
